@@ -20,7 +20,7 @@ ASSUMPTIONS = ['feeds are made large enough that neither side is infeasible (X_a
 
 
 def required(tier):
-    return ['add-vs-parallel', 'sub-inverse', 'scale', 'inplace', 'new-object', 'operands-unchanged', 'set-item-X', 'backwards', 'set-copy']
+    return ['add-vs-parallel', 'sub-inverse', 'scale', 'inplace', 'new-object', 'operands-unchanged', 'set-item-X', 'backwards', 'set-copy', 'reduce']
 
 
 def gen_case(rng):
@@ -253,6 +253,23 @@ def run_case(case, rec):
         if cb is not None:
             rec.check(same_snap(snap(rs), ssn), 'set-copy', f'copy-basis/original-changed/{cls.__name__}',
                       f're-basing a copy of a reaction set changed the original set (basis still {rs._basis}, stoichiometry rows modified)')
+        if cls is tmo.ParallelReaction:
+            # combining the members that share a reactant (all three do): a new set, acting like the original, which stays as it was
+            ssr = snap(rs)
+            before = guarded('reduce', lambda: apply(rs, case, th))
+            rd = guarded('reduce', lambda: rs.reduce())
+            if rd is not None:
+                rec.hit('reduce')
+                rec.check(same_snap(snap(rs), ssr), 'operands-unchanged', f'reduce/set/{tg}', f'ParallelReaction.reduce() changed the set it was called on: X before {ssr[1].tolist()} after {snap(rs)[1].tolist()}')
+                rec.check(rd is not rs and not (containers(rd) & containers(rs)), 'new-object', f'reduce/shared-container/{tg}', 'reduce() result shares stoichiometry containers with the original set')
+                after = guarded('reduce', lambda: apply(rd, case, th))
+                if before is not None and after is not None:
+                    d = differ(before, after, scale)
+                    rec.check(not d, 'add-vs-parallel', f'reduce/{tg}', f'the reduced set acts differently from the original parallel set: {d[:4]}')
+                again = guarded('reduce', lambda: apply(rs, case, th))
+                if before is not None and again is not None:
+                    d = differ(before, again, scale)
+                    rec.check(not d, 'operands-unchanged', f'reduce/set-acts/{tg}', f'after reduce() the original set acts differently from before: {d[:4]}')
         rec.check(all(same_snap(snap(x), s0) for x, s0 in zip(members, msn)), 'set-copy', f'members-changed/{cls.__name__}',
                   'building / copying / re-basing a reaction set changed the member reactions it was built from')
     if all(d['X'] > 0 and len(d['st']) >= 3 for d in case['rx'][:2]): rec.mark_nontrivial(case_hash(case))
